@@ -2,6 +2,7 @@ package main
 
 import (
 	"bytes"
+	"crypto/md5"
 	"encoding/json"
 	"fmt"
 	"os"
@@ -32,6 +33,7 @@ type c07Case struct {
 	Plan      []faultSpec `json:"plan"`
 	Immediate bool        `json:"immediate_verification"`
 	AllTorn   bool        `json:"all_torn_lengths"`
+	ModelTie  bool        `json:"model_tie"` // compare the whole run with DFaultRun.dfrun (failed Flush calls modelled byte for byte)
 }
 
 type c07Stats struct {
@@ -60,6 +62,7 @@ func c07Profile(c c07Case) [][]IOEvent {
 	var prof [][]IOEvent
 	c.Plan = nil
 	c.Immediate = false
+	c.ModelTie = false
 	runC07x(c, &c07Stats{ByKind: map[string]int{}, ByOp: map[string]int{}}, &prof)
 	return prof
 }
@@ -78,6 +81,22 @@ func runC07x(c c07Case, st *c07Stats, prof *[][]IOEvent) *Mismatch {
 	w, cmpOf := newWorldFor(RunCfg{FileBacked: true})
 	_ = cmpOf
 	dirtyTail := false // a failed Flush advanced the store size past the last root record
+	var frecs []frec
+	modelable := c.ModelTie
+	digest := func() string {
+		b := w.File.Bytes()
+		return fmt.Sprintf("%d %x", len(b), md5.Sum(b))
+	}
+	record := func(op Op, obs string) {
+		if !modelable {
+			return
+		}
+		if op.H != 0 {
+			modelable = false
+			return
+		}
+		frecs = append(frecs, frec{Line: op.String(), Op: op, Obs: obs, Digest: digest()})
+	}
 	verify := func(i int, op Op, what string) *Mismatch {
 		for hi, h := range w.H {
 			if h.Closed {
@@ -149,6 +168,29 @@ func runC07x(c c07Case, st *c07Stats, prof *[][]IOEvent) *Mismatch {
 		if op.K == "flush" && op.H == 0 && gkvlite.VerifStoreSize(w.H[0].Store) != sizeB0 {
 			dirtyTail = true
 		}
+		if modelable {
+			if op.K == "flush" && op.H == 0 {
+				kw, tl, ok := 0, 0, false
+				for _, e := range w.File.LogFrom(l0) {
+					if e.Kind != 'W' {
+						ok = false
+						break
+					}
+					if e.Fail {
+						tl, ok = len(e.Data), true
+						break
+					}
+					kw++
+				}
+				if ok {
+					frecs = append(frecs, frec{Line: fmt.Sprintf("flushfail %d %d", kw, tl), Op: op, Fail: true, Obs: "err", Digest: digest()})
+				} else {
+					modelable = false
+				}
+			} else if op.K == "flush" || op.K == "reopen" {
+				modelable = false // a failed re-open / snapshot-side call: outside the fault model
+			}
+		}
 		if !errorLike(op, obs) {
 			return obs, true, tornLen, &Mismatch{Step: i, Op: op.String(), Kind: "swallowed", Expected: "an error return (file call failed)", Observed: obs, Note: fmt.Sprintf("file call %d of this call was made to fail (torn=%d) but the call reported success", k, torn)}
 		}
@@ -162,6 +204,7 @@ func runC07x(c c07Case, st *c07Stats, prof *[][]IOEvent) *Mismatch {
 				return obs, true, tornLen, &Mismatch{Step: i, Op: op.String(), Kind: "reopen-after-failed-revert", Expected: "ok", Observed: r}
 			}
 			w.Expect(Op{K: "reopen"})
+			record(Op{K: "reopen"}, "ok")
 		}
 		if hm := checkHeap(w); hm != nil && !heapCheckOff {
 			hm.Step, hm.Op = i, op.String()
@@ -176,6 +219,11 @@ func runC07x(c c07Case, st *c07Stats, prof *[][]IOEvent) *Mismatch {
 		return obs, true, tornLen, nil
 	}
 	finish := func(i int, op Op, got string, note string) *Mismatch {
+		if op.K == "reopen" && op.H == 0 && got == "err" && len(w.Flushed) == 0 && w.File.Len() > 0 {
+			// bytes in the file (a failed first Flush) but no Flush ever completed: the documented
+			// "no roots" error is the right answer; the store in use stays as it is
+			return nil
+		}
 		if op.H == 0 && got == "ok" && (op.K == "flush" || op.K == "reopen") {
 			dirtyTail = false
 		}
@@ -232,6 +280,7 @@ func runC07x(c c07Case, st *c07Stats, prof *[][]IOEvent) *Mismatch {
 				return m
 			}
 			if !fired {
+				record(op, obs)
 				if m := finish(i, op, obs, "call whose planned fault position was not reached"); m != nil {
 					return m
 				}
@@ -255,12 +304,21 @@ func runC07x(c c07Case, st *c07Stats, prof *[][]IOEvent) *Mismatch {
 				}
 				*prof = append(*prof, w.File.LogFrom(l0))
 			}
+			record(op, got)
 			if m := finish(i, op, got, "fault-free call (possibly after earlier failed calls)"); m != nil {
 				return m
 			}
 		}
 	}
-	return verify(len(ops), Op{K: "end"}, "at the end of the history")
+	if m := verify(len(ops), Op{K: "end"}, "at the end of the history"); m != nil {
+		return m
+	}
+	if modelable && len(frecs) > 0 {
+		if m := DFModelMismatch(frecs); m != nil {
+			return m
+		}
+	}
+	return nil
 }
 
 func genC07(r *Rng, immediate bool) c07Case {
@@ -344,6 +402,9 @@ func checkC07(rep *Report, rng *Rng, tier string) {
 	rep.Rule = "fault enumeration on seeded histories over a re-opened (nothing cached) file: (A) for chosen calls every file call k=1..all is made to fail in turn, writes also torn at 1, len/2, len-1 bytes (thorough: every length), each followed by: error returned, no panic/hang, bytes below the store size unchanged, contents of every handle equal to the pre-fault reference, a fresh Store on a copy of the image shows the last Flush; (B) random single faults on about half of the calls of a longer history with the contents verified only at the end (keeps the lazy/unloaded state alive so stale recycling marks surface); fault-free continuation compared with the reference; non-trivial = at least one fault fired, distinct = different history"
 	st := &c07Stats{ByKind: map[string]int{}, ByOp: map[string]int{}}
 	report := func(c c07Case, m *Mismatch) bool {
+		if os.Getenv("VERIF_DEBUG") != "" {
+			fmt.Fprintf(os.Stderr, "ORIGINAL mismatch: %+v\nnplan=%d nops=%d\n", *m, len(c.Plan), len(c.Ops))
+		}
 		rep.Pending(map[string]interface{}{"case": c, "mismatch": m})
 		if m.Kind == "hang" {
 			rep.Violation("", false, map[string]interface{}{"case": c, "mismatch": m})
@@ -460,6 +521,56 @@ func checkC07(rep *Report, rng *Rng, tier string) {
 			break
 		}
 	}
+	// mode C: every WriteAt call of chosen Flush calls made to fail (torn at 0, 1, len/2, len-1), retried or not,
+	// also twice in a row; the whole run -- every answer and the bytes of the file after every failed or completed
+	// Flush, FlushRevert and re-open -- is compared with the byte-level fault model (DiskFault.flush_fault)
+	nC, perC, maxK := 4, 1, 30
+	if tier == "thorough" {
+		nC, perC, maxK = 150, 4, 1 << 30
+	}
+	for i := 0; i < nC && len(rep.Violations) == 0; i++ {
+		r := rng.Fork()
+		c := genC07(r, true)
+		c.ModelTie = true
+		prof := c07Profile(c)
+		var steps []int
+		for si, evs := range prof {
+			if si < len(c.Ops) && ParseOp(c.Ops[si]).K == "flush" && len(evs) > 1 {
+				steps = append(steps, si)
+			}
+		}
+		for j := 0; j < perC && len(steps) > 0 && len(rep.Violations) == 0; j++ {
+			step := steps[r.Intn(len(steps))]
+			for k, ev := range prof[step] {
+				if len(prof[step]) > maxK && r.Intn(len(prof[step])) >= maxK {
+					continue // quick tier: a sample of the call positions of a long Flush
+				}
+				torns := []int{0}
+				if ev.Len > 1 {
+					torns = []int{0, 1, ev.Len / 2, ev.Len - 1}
+				}
+				stop := false
+				for _, t := range torns {
+					x := c
+					x.Plan = []faultSpec{{Step: step, K: k + 1, Torn: t, NoRetry: (k+t)%3 == 0}}
+					if (k+t)%4 == 1 {
+						// a second failed attempt right after the first, at another call
+						x.Plan = append(x.Plan, faultSpec{Step: step, K: 1 + r.Intn(len(prof[step])), Torn: r.Intn(3), NoRetry: r.Chance(1, 2)})
+					}
+					rep.Evaluations++
+					if m := runC07(x, st); m != nil {
+						stop = report(x, m)
+						break
+					}
+				}
+				if stop || len(rep.Violations) > 0 {
+					break
+				}
+			}
+		}
+	}
+	rep.Extra["fault_runs_compared_with_byte_level_model"] = dfaultCompared
+	rep.Extra["failed_flushes_compared_with_flush_fault"] = dfaultFlushFails
 	for k, n := range st.Known {
 		rep.Violation(k, false, map[string]interface{}{"hits": n})
 	}
